@@ -2,10 +2,10 @@
 # seedtest.sh <seed-dir-name e.g. C07-a> <check ids...> : applies the seeded patch to /repo, runs the quick checks, reverts
 s=$1; shift
 cd /repo && [ -z "$(git status --short)" ] || { echo "/repo not clean"; exit 9; }
-git apply /verif/seeded/$s/patch.diff || exit 9
+git apply /verif/seeded/$s/patch.diff 2>/dev/null || patch -p1 -F3 -s < /verif/seeded/$s/patch.diff || { echo "[$s] PATCH DOES NOT APPLY"; git checkout -q -- .; git clean -fdq; exit 9; }
 cd /verif
 for id in "$@"; do
   out=$(./check.sh $id ${TIER:-quick} 2>&1); rc=$?
   echo "[$s] $id exit=$rc: $(echo "$out" | grep -m2 -E 'VIOLATION|HELD|INCONCLUSIVE|kind=' | tr '\n' ' ' | cut -c1-400)"
 done
-cd /repo && git checkout -q -- . && git clean -fdq && git status --short
+cd /repo && git checkout -q -- . && git clean -fdq -e "*.orig" && rm -f *.orig *.rej && git status --short
